@@ -219,6 +219,18 @@ Commit(v, oldH, newH, isReapply, forced) ==
         /\ hist' = Log(hist, Rec("Commit", [reapply |-> IF isReapply THEN 1 ELSE 0],
                                   [r |-> v.r, removed |-> {}, cp |-> IF forced THEN 1 ELSE 0]))
 
+\* AccountsDB.Commit with nothing dirty (an empty block on a shard whose state did not change): the root
+\* stays, storagePruningManager.MarkForEviction returns at once (old root = new root), but
+\* AddDirtyCheckpointHashes(root, {}) still appends an (empty) entry to the checkpoint hashes holder - the
+\* entries recorded earlier for that root must stay (seeded change C10-S replaced them)
+CommitNoop(forced) ==
+    LET v == Last1(chain) IN
+    /\ holder' = IF MaxJobs = 0 THEN holder ELSE Append(holder, [r |-> v.r, s |-> {}])
+    /\ blocked' = IF forced THEN blocked + 1 ELSE blocked
+    /\ jobs' = IF forced THEN Append(jobs, NewJob(v, "c")) ELSE jobs
+    /\ UNCHANGED <<chain, nfin, db, ewl, buf, dead, rolled, leak, conf, manual, snaps, sq, cur, quiet>>
+    /\ hist' = Log(hist, Rec("CommitNoop", [x |-> 0], [r |-> v.r, removed |-> {}, cp |-> IF forced THEN 1 ELSE 0]))
+
 \* baseProcessor.updateStateStorage for the next non-final block of the chain
 Finalize ==
     /\ nfin < Len(chain)
